@@ -635,9 +635,6 @@ func installFunctions(in *Interp, p *Pkg) {
 			return nil, in.unsure("all? with a special function")
 		}
 		for _, x := range append([]*V(nil), a[1].Elems()...) {
-			if !selfEvaluating(x) {
-				return nil, in.unsure("all?/any? re-evaluates elements")
-			}
 			r, e := in.call(f, x)
 			if e != nil {
 				return nil, e
@@ -660,9 +657,6 @@ func installFunctions(in *Interp, p *Pkg) {
 			return nil, in.unsure("any? with a special function")
 		}
 		for _, x := range append([]*V(nil), a[1].Elems()...) {
-			if !selfEvaluating(x) {
-				return nil, in.unsure("all?/any? re-evaluates elements")
-			}
 			r, e := in.call(f, x)
 			if e != nil {
 				return nil, e
@@ -728,11 +722,6 @@ func installFunctions(in *Interp, p *Pkg) {
 			return nil, in.unsureSort(less, key, a[1])
 		}
 		elems := a[1].Elems()
-		for _, x := range elems {
-			if !selfEvaluating(x) {
-				return nil, in.unsure("stable-sort re-evaluates elements")
-			}
-		}
 		keys := make([]*V, len(elems))
 		for i, x := range elems {
 			keys[i] = x
